@@ -24,6 +24,8 @@ def child_env(backend_dir, asan=False, extra=None):
     parts = [backend_dir, os.path.join(REPO, 'src'), VERIF]
     if os.path.isdir(DEPS):
         parts.append(DEPS)
+    if os.environ.get('VERIF_COV'):
+        parts.insert(0, os.path.join(VERIF, 'vlib', 'cov'))
     env['PYTHONPATH'] = os.pathsep.join(parts)
     env['PYTHONHASHSEED'] = env.get('VERIF_HASHSEED', '0')
     env['PYTHONDONTWRITEBYTECODE'] = '1'
